@@ -18,8 +18,11 @@ Monitor (the property statement): every callback result == the builtin's result 
 submission order; at the end all three replicas hold contents equal to the builtin's.
 `ReplSet.pop` is part of the streams (D20 repaired): the callback result must be a member of the mimic
 set, exactly it is removed from the mimic, and every replica -- the one rebuilt from the snapshot
-included -- must end with the mimic's contents.  Calls that raise are left out: what a raising
-replicated method does to a cluster is property C12.
+included -- must end with the mimic's contents.  Calls on which the Python container RAISES are part of the
+streams (KeyError / IndexError / ValueError of misses, AssertionError / TypeError of reset() with a wrong type, and
+directed TypeError bursts in the mixed domain: sort() of a list holding 1 and 'a', the unhashable key [1] in
+dict/set calls, add('x') on the counter, two priority-queue items tying on priority with unorderable payloads): the
+callback must carry an exception of the same class, every replica moves on, later operations are applied.
 `ReplList.__setitem__` is `@replicated(ver=1)` and needs `setCodeVersion(1)`: property C17.)
 """
 import hashlib
@@ -68,9 +71,8 @@ OTHER = [("counter", ["inc"]), ("set", ["add", 5]), ("list", ["append", 8]), ("q
 
 
 class Gen(object):
-    """op stream for one schedule: mutating calls only (reads are local; contents are compared at the end); no
-    call that raises on the mimic (what a raising replicated method does to the cluster is property C12's
-    subject).  The tracker only steers the generation (sizes, non-raising calls); for ReplSet.pop it removes
+    """op stream for one schedule: mutating calls only (reads are local; contents are compared at the end), raising
+    calls included.  The tracker only steers the generation (sizes, non-raising calls); for ReplSet.pop it removes
     the element with the smallest (type name, repr) -- should the implementation choose otherwise, `evaluate`
     follows the implementation.  Optional arguments are issued in all three forms: omitted, positional, BY
     KEYWORD (`kwforms[index] = [parameter name]`: the last argument travels through the log as a keyword); every
@@ -101,18 +103,15 @@ class Gen(object):
                 return False
             v.remove(min(v, key=lambda x: (type(x).__name__, repr(x))))
         else:
-            if mixed:
-                if cls == "pq" and name == "put" and type(bm.unlit(op[1])) not in (int, bool):
-                    return False                      # unorderable items raise inside heappush
-                call, is_err = bm.call_builtin, (lambda r: isinstance(r, bm.Err))
-            else:
-                if name == "reset" and not (isinstance(op[1], dict) and list(op[1])[0] == {"list": "l", "dict": "d", "set": "s"}[cls]):
-                    return False
-                call, is_err = bo.call_builtin, (lambda r: isinstance(r, dict) and "e" in r)
-            if cls not in ("queue", "pq"):
-                if is_err(call(cls, copy.deepcopy(self.track[cls]), op)):
-                    return False
-            call(cls, self.track[cls], op)
+            # calls that RAISE on the mimic are part of the stream: the callback has to report the same error
+            # class, every replica has to move on (see evaluate)
+            r = (bm.call_builtin if mixed else bo.call_builtin)(cls, self.track[cls], op)
+            if isinstance(r, bm.Err):
+                self.count("raises:%s.%s:%s" % (cls, name, r.name))
+                self.count("raises:any:" + r.name)
+            elif isinstance(r, dict) and not mixed and "e" in r:
+                self.count("raises:%s.%s:%s" % (cls, name, r["e"]))
+                self.count("raises:any:" + r["e"])
         if kw:
             self.kwforms[len(self.out)] = kw
         self.out.append((cls, op))
@@ -139,10 +138,39 @@ class Gen(object):
             if self.emit("set", ["pop"]):
                 self.count("set.pop:only-unordered-members")
 
+    def type_error_burst(self):
+        """calls on which the Python containers raise TypeError / AssertionError (mixed domain), each followed by a
+        call that succeeds: the callback must carry that error class, later operations must still be applied"""
+        L = bm.lit
+        kind = self.rng.choice(["sort", "unhashable-dict", "unhashable-set", "counter", "pq-tie", "reset"])
+        if kind == "sort":                      # a list holding 1 and 'a', then sort()
+            burst = [("list", ["append", L(1)]), ("list", ["append", L('a')]), ("list", ["sort"]), ("list", ["append", L(2)]),
+                     ("list", ["sort", L(True)]), ("list", ["pop"])]
+        elif kind == "unhashable-dict":         # key [1]
+            burst = [("dict", ["set", L([1]), L(0)]), ("dict", ["set", L('k'), L(1)]), ("dict", ["setdefault", L([1]), L(2)]),
+                     ("dict", ["pop", L([1])]), ("dict", ["update", L({'u': None})])]
+        elif kind == "unhashable-set":
+            burst = [("set", ["add", L([1])]), ("set", ["add", L(3)]), ("set", ["discard", L([1])]), ("set", ["remove", L({})]),
+                     ("set", ["update", L([[1]])]), ("set", ["add", L(4)])]
+        elif kind == "counter":                 # add('x') on the counter
+            burst = [("counter", ["add", L('x')]), ("counter", ["inc"]), ("counter", ["sub", L(None)]), ("counter", ["add", L(2)])]
+        elif kind == "pq-tie":                  # two items that tie on priority with unorderable payloads
+            burst = [("pq", ["put", L((1, 'a'))]), ("pq", ["put", L((1, None))]), ("pq", ["put", L((0, 'z'))]), ("pq", ["get"]),
+                     ("pq", ["get"]), ("pq", ["get"]), ("pq", ["get"])]
+        else:                                   # reset() with a wrong type
+            burst = [("list", ["reset", L(None)]), ("dict", ["reset", L([])]), ("set", ["reset", L({})]), ("list", ["append", L(0)]),
+                     ("list", ["extend", L(5)])]
+        for cls, op in burst:
+            self.emit(cls, op)
+        self.count("type-error-burst:" + kind)
+
     def step(self):
         rng = self.rng
         if self.mixed and rng.random() < 0.04:
             self.unordered_family()
+            return
+        if self.mixed and rng.random() < 0.05:
+            self.type_error_burst()
             return
         cls = rng.choice(NAMES)
         op = (bm.gen_op if self.mixed else bo.gen_op)(rng, cls, self.size(cls))
@@ -221,12 +249,17 @@ def scenario(repo, seed, rng, n_ops, maxsize, mixed=False):
                 if all(j in results for j in range(lo, k)):
                     break
                 sim.run(1, among=among)
+            else:
+                stuck.append(k)                 # callbacks do not arrive any more: do not submit further
+                return
 
+    stuck = []
     third = n_ops // 3
     phase(0, third, [L, F, S], None)                       # phase 1: everybody connected
     sim.disconnect(S, L)                                   # phase 2: S partitioned; L and F go on and compact
     sim.disconnect(S, F)
-    phase(third, 2 * third, [L, F], [L, F])
+    if not stuck:
+        phase(third, 2 * third, [L, F], [L, F])
     sim.compact(L)
     sim.compact(F)
     sim.run(4, among=[L, F])
@@ -238,12 +271,13 @@ def scenario(repo, seed, rng, n_ops, maxsize, mixed=False):
     s_first_after = sim.P(S, "raftLog")[0][1]
     if sim.leader() is None:
         sim.elect()
-    phase(2 * third, n_ops, [L, F, S], None)
+    if not stuck:
+        phase(2 * third, n_ops, [L, F, S], None)
     sim.run(8)
     info = {"leader": L, "straggler": S, "first_log_index_after_compaction": first_idx,
             "straggler_last_index_before_rejoin": s_last_before, "straggler_first_index_after_rejoin": s_first_after,
             "snapshot_installed": s_first_after > s_last_before, "errors": [e[:3] for e in sim.errors[:3]],
-            "argument_forms": gcov, "keyword_calls": sorted(kwforms)[:8]}
+            "argument_forms": gcov, "keyword_calls": sorted(kwforms)[:8], "stuck_after_submission": stuck[:1]}
     return (sim, ops, results), info
 
 
@@ -274,13 +308,23 @@ def evaluate(sim, ops, results, maxsize, mixed=False):
                                   "(submission %d)" % (bo.CLSNAME[cls], op[0], tuple(op[1:]), results[k][1], bo.BUILTIN[cls], want, k)})
             break
         if k not in results:
-            viols.append({"signature": "batteries.cluster:callback-missing",
-                          "what": "no callback for %s.%s%r (submission %d)" % (bo.CLSNAME[cls], op[0], tuple(op[1:]), k)})
+            raising = isinstance(want, dict) and "e" in want
+            viols.append({"signature": ("batteries.%s.%s:raising-call-never-answered:%s" % (bo.CLSNAME[cls], op[0], want["e"])) if raising
+                          else "batteries.cluster:callback-missing",
+                          "what": "no callback for %s.%s%r (submission %d; %s given the same call: %r); escaped from the nodes: %r"
+                                  % (bo.CLSNAME[cls], op[0], tuple(op[1:]), k, bo.BUILTIN[cls], want,
+                                     sorted(set((e[0], e[1]) for e in sim.errors))[:4])})
             break
         res, err = results[k]
         n_cb += 1
         if isinstance(want, dict) and "e" in want:
-            # a raising replicated method: C12's business what the callback carries; only state matters here
+            # the Python container raises: the callback has to carry an exception of the same class (the command is
+            # committed, every replica executes it and sees the same exception), and the cluster moves on
+            if not (err == 0 and isinstance(res, BaseException) and type(res).__name__ == want["e"]):
+                viols.append({"signature": "batteries.%s.%s:replicated-error-differs-from-builtin" % (bo.CLSNAME[cls], op[0]),
+                              "what": "through the cluster %s.%s%r -> (%r, err %r); %s given the same call raises %s (submission %d)"
+                                      % (bo.CLSNAME[cls], op[0], tuple(op[1:]), res, err, bo.BUILTIN[cls], want["e"], k)})
+                break
             continue
         if err == 0 and isinstance(res, BaseException):
             # the method raised on the replicas (the callback carries the exception) where the builtin does not
@@ -516,7 +560,10 @@ def run(ctx):
            "notes": "private attributes read: _SyncObj__raftLog (via sim.P) and those of corr.batteries_ops"}
     forms = cov.get("argument_forms", {})
     need = ["form:omitted", "form:positional", "form:keyword", "keyword-then-same-method-without-it",
-            "keyword-then-method-lacking-the-keyword", "keyword-then-other-battery", "set.pop:only-unordered-members"]
+            "keyword-then-method-lacking-the-keyword", "keyword-then-other-battery", "set.pop:only-unordered-members",
+            "raises:any:TypeError", "raises:any:AssertionError", "raises:any:KeyError", "raises:any:IndexError", "raises:any:ValueError",
+            "raises:list.sort:TypeError", "raises:dict.set:TypeError", "raises:set.add:TypeError", "raises:counter.add:TypeError",
+            "raises:pq.put:TypeError"]
     if cov["snapshot_installs"] == 0 and not viols:
         res["inconclusive"] = "no schedule made the straggler install a snapshot"
     elif not viols and [f for f in ("setitem-before-switch", "setitem-after-switch-live-node",
